@@ -131,6 +131,9 @@ func c19(r *rep.Run) {
 		enc := make([]int64, len(strs))
 		for i, s := range strs {
 			r.Note(w, s)
+			if i%64 == 0 {
+				r.Tick()
+			}
 			args := []interface{}{s}
 			if n != 0 {
 				args = append(args, int64(n))
@@ -153,6 +156,9 @@ func c19(r *rep.Run) {
 		// every pair: order preserved (encodings verified equal to the engine's above)
 		var np, nt int64
 		for i := range strs {
+			if i%64 == 0 {
+				r.Tick() // one unit of work holds millions of pairs
+			}
 			for j := range strs {
 				np++
 				if sign(enc[i]-enc[j]) != cmpVersions(strs[i], strs[j], N) {
